@@ -29,6 +29,17 @@ PROPS.update({
             "design": "6/C10", "projection": core.framing_projection()},
 })
 
+POLICY = lambda prof, q, t: {"quick": [("policy", {"profile": prof, "count": q})], "thorough": [("policy", {"profile": prof, "count": t})]}
+PROPS.update({
+    "C14": {"suites": POLICY("C14", 600, 30000), "design": "6/C14", "projection": core.policy_projection()},
+    "C15": {"suites": POLICY("C15", 300, 10000), "design": "6/C15", "projection": core.policy_projection()},
+})
+
+RULE_POLICY = ("policy: programs of 10-120 commands (stores, overwrites, appends, counter updates, deletes, flushes, TTLs and clock advances) over 2-8 keys "
+               "run through BinaryHandler/MemcStore/RandomPolicy with memory limits from 10 bytes (below one record) to a few records (C14) or far above the "
+               "live set (C15); a recording Cache between RandomPolicy and MemoryStore observes the victims, which are fed to the Lean model as the choice "
+               "tape (the model validates every choice); accounted usage (hook), stored bytes and content are compared after every command.")
+
 RULE_STREAM = ("codec/conn: pipelined request streams (standard loud and quiet commands of every opcode, unimplemented opcodes, frames with "
                "unexpected extras/value, bodies above the item limit for any opcode, quit/quitq at any position, optionally a truncated or "
                "invalid-header tail) are cut into consecutive reads: every single cut (or a directed sample around header and frame boundaries), "
@@ -97,6 +108,7 @@ def run_check(prop, tier, seed, replay):
         return 1
 
     runs = []
+    hang = None
     # c. corpus / replay
     if replay:
         payload = json.load(open(replay))
@@ -112,7 +124,12 @@ def run_check(prop, tier, seed, replay):
         for n, (suite, args) in enumerate(cfg["suites"][tier]):
             a = dict(args)
             a["seed"] = seed * 1000 + n
-            runs.append((f"{suite}:{a.get('profile', '')}", core.run_harness(suite, os.path.join(work, f"{suite}{n}"), a)))
+            try:
+                runs.append((f"{suite}:{a.get('profile', '')}", core.run_harness(suite, os.path.join(work, f"{suite}{n}"), a,
+                                                                                 timeout=240 if tier == "quick" else 3000)))
+            except core.HarnessHang as h:
+                hang = h
+                break
 
     # e/f. verdict
     violations = 0
@@ -140,8 +157,9 @@ def run_check(prop, tier, seed, replay):
             payload.update(program_payload(run, v["start"], v["end"]))
             problems.append(("counterexample", v["msg"], payload, True))
         stream_suite = name.startswith("codec") or name.startswith("conn") or name.startswith("grid")
-        for (a, b, i) in run.divergences(cfg.get("projection") if (stream_suite and cfg.get("projection")) else None):
-            if name.startswith("corpus") or name == "replay":
+        proj_suite = stream_suite or name.startswith("policy")
+        for (a, b, i) in run.divergences(cfg.get("projection") if (proj_suite and cfg.get("projection")) else None):
+            if name.startswith("corpus") or name == "replay" or name.startswith("policy"):
                 own, why = {prop}, f"witness replay differs at '{run.ops[i][:40]}'"
             elif stream_suite:
                 own, why = {prop}, f"framing differs at '{run.ops[i][:40]}'"
@@ -158,12 +176,28 @@ def run_check(prop, tier, seed, replay):
                 known_hits.setdefault(kk[0]["id"], kk[0])
                 continue
             reported_programs.add(a)
+            mline = run.model[i] if i < len(run.model) else ""
+            if "tape=bad" in mline and prop in ("C14", "C15"):
+                payload = {"kind": "counterexample", "property": prop, "suite": name, "seed": seed,
+                           "oracle": "the implementation's eviction at this request is not one the accounting rule allows (victims evicted while the "
+                                     "accounted usage was within the limit, a needed eviction skipped, or a victim that is not stored): " + mline[-120:],
+                           "line_in_program": i - a}
+                payload.update(program_payload(run, a, b))
+                problems.append(("counterexample", payload["oracle"], payload, True))
+                continue
             payload = {"kind": "broken-correspondence", "property": prop, "suite": name, "seed": seed,
                        "what": f"implementation and model differ at line {i - a} of the program ({why})",
                        "impl_line": run.impl[i] if i < len(run.impl) else None, "model_line": run.model[i] if i < len(run.model) else None,
                        "note": "the property oracle found no failing input in this program"}
             payload.update(program_payload(run, a, b))
             problems.append(("correspondence", payload["what"], payload, False))
+
+    if hang is not None:
+        prog = hang.program()
+        payload = {"kind": "counterexample", "property": prop, "suite": hang.suite, "seed": seed,
+                   "oracle": f"the implementation did not return within {hang.timeout}s while executing the last line of this program",
+                   "ops": prog, "last_line": prog[-1] if prog else None}
+        problems.append(("counterexample", f"command does not return (hang) at: {(prog[-1] if prog else '?')[:120]}", payload, True))
 
     if not lean["ok"]:
         bad = [o["name"] for o in lean["obligations"] if not o["ok"]]
@@ -209,7 +243,7 @@ def finish(prop, tier, seed, t0, lean, n_obl, n_dis, stats, violations, known_hi
             "trusted_base": core.TRUSTED,
             "obligation_list": [{"name": o["name"], "axioms": o["axioms"]} for o in lean["obligations"]],
             "source_scan_hits": scan,
-            "evaluations": evals, "distinct_nontrivial": dn, "rule": RULE_STREAM if any(s.get("suite") in ("codec", "conn", "grid") for s in stats) else RULE,
+            "evaluations": evals, "distinct_nontrivial": dn, "rule": RULE_STREAM if any(s.get("suite") in ("codec", "conn", "grid") for s in stats) else (RULE_POLICY if any(s.get("suite") == "policy" for s in stats) else RULE),
             "samples": samples or [],
             "correspondence_runs": stats,
             "lines_compared": sum(s.get("lines", 0) for s in stats),
